@@ -201,7 +201,8 @@ contract("monkeytype.stubs:build_module_stubs_from_traces", props=["C01", "C10",
 _FK = "monkeytype.stubs:FunctionKind"
 _BODY = ("concat(prefix, ite(self.is_async, 'async ', ''), 'def ', unboxs(self.name), render_signature(self.signature,"
          " 120 - strlen(concat(prefix, ite(self.is_async, 'async ', ''), 'def ', unboxs(self.name))), prefix), ': ...')")
-_STRIPPED = "stripn_(%s, sorted_by_len_desc_(self.strip_modules), len(self.strip_modules))" % _BODY
+# module prefixes are stripped from the signature text by ONE regex substitution whose pattern is built from all modules (longest first); with no modules the text is left alone
+_STRIPPED = ("ite(len(self.strip_modules) == 0, %s, re_sub_(concat('(?<![\\w.])(?:', L_pattern, ')\\.'), '', %s))" % (_BODY, _BODY))
 contract("monkeytype.stubs:FunctionStub.render", props=["C12", "C11"], theories=TH + ["stubs", "path"],
          params={"self": "FunctionStub", "prefix": "strp"}, result="strp",
          requires={"valid": "is_valid_sig(self.signature)", "anno-wf": "forall(params_of(self.signature), lambda p: panno(p) is not UNION_BARE)"},
@@ -214,9 +215,7 @@ contract("monkeytype.stubs:FunctionStub.render", props=["C12", "C11"], theories=
              "post:cached-property": "implies(self.kind is FunctionKind.DJANGO_CACHED_PROPERTY, result == concat(prefix, '@cached_property\\n', %s))" % _STRIPPED,
              "post:plain": "implies(self.kind is FunctionKind.MODULE or self.kind is FunctionKind.INSTANCE, result == %s)" % _STRIPPED,
          },
-         loops={0: {"iter": "sorted(self.strip_modules, key=len, reverse=True)",
-                    "inv": {"fold": "s == stripn_(pre_loop('s'), _seq, _i)"}}},
-         note="re.sub / re.escape and the order sorted() produces are uninterpreted (the text of annotations is bounded, C11)")
+         note="re.sub / re.escape / str.join and the order sorted() produces are uninterpreted (the text of annotations is bounded, C11)")
 
 _DESC = "lookup_(func.__module__, func.__qualname__)"
 contract("monkeytype.stubs:FunctionKind.from_callable", props=["C12"], theories=TH + ["stubs", "enc", "cli", "path"],
